@@ -6,6 +6,10 @@ import Pyunicorn.Lemmas.SurrogatesSpectrum
 import Pyunicorn.Lemmas.SurrogatesKernel
 import Pyunicorn.Lemmas.SurrogatesKernelW
 import Pyunicorn.Lemmas.SurrogatesObject
+import Pyunicorn.Lemmas.SurrogatesTies
+import Pyunicorn.Lemmas.SurrogatesMethod
+import Pyunicorn.Lemmas.SurrogatesCoupling
+import Pyunicorn.Generated.StructC15
 /-!
 # C15 — Surrogates preserve exactly what each method promises
 
@@ -45,6 +49,14 @@ Clauses of the statement and where they are:
   `twins_counter_width_exact`, `twins_counter_wrap_loses_twins`), the subscripts of the source
   (`twins_scan_reads_rows`, `rp_twins_source_subscripts`: asymmetric matrices), whole methods
   (`twin_surrogates_loop_level_machine`, `rp_twin_surrogates_method`).
+* round 4: tie-order independence of the rank remapping (`remap_tie_order_independent`,
+  `remap_pairs_are_sorted_pairs`, `remap_comonotone`, `remap_unique_without_ties`,
+  `model_ranks_are_a_rank_array`, `remap_equals_model_up_to_tie_order`, `remap_equals_model_without_ties`);
+  `correlated_noise_surrogates` statement by statement as regenerated from the source
+  (`fourier_method_body_covered`, `fourier_method_keeps_amplitudes`), the last `rfft` bin of an odd
+  length (`last_bin_of_odd_length_is_not_nyquist`, `forcing_last_bin_real_changes_amplitude`);
+  `normalize_original_data` (`normalize_keeps_shape`, `normalize_zero_mean`, `normalize_unit_variance`,
+  `normalize_constant_series`, `normalize_strictly_increasing`).
 -/
 namespace Pyunicorn.Surrogates
 
@@ -641,6 +653,186 @@ theorem stale_embedding_witness :
       ((SObj.run Policy.code (SObj.fresh [[0, 5, 0, 20]]) ops).2.twinSurr Policy.code 1 0 (1 / 2) 0
         (fun _ _ => 0)).2.emb = some [[[0], [5], [9], [20]]] := by
   constructor <;> decide +kernel
+
+/-! ## Round 4
+
+### tie-order independence of the rank remapping
+
+`numpy.argsort` does not specify the order of equal values, and the code applies it twice
+(`s.argsort(axis=1).argsort(axis=1)`).  Whatever numpy does, the result is a `RankOf s`: a
+permutation of the index range that never gives a strictly smaller value the larger rank (the
+harness checks this hypothesis on numpy's rank array in every case with ties). -/
+
+/-- **the (ranked value, output value) pairs do not depend on the order among ties**: for every rank
+array of `s`, `sorted_original[idx]` succeeds, is a permutation of the data row, and the multiset of
+pairs `(s[a], out[a])` is `zip (sorted s) (sorted row)`. -/
+theorem remap_pairs_are_sorted_pairs (row s : List Rat) (idx : List Nat) (hlen : s.length = row.length)
+    (h : RankOf s idx) :
+    ∃ out, gather (sortR row) idx = some out ∧ out.Perm row ∧
+      (s.zip out).Perm ((sortR s).zip (sortR row)) :=
+  gather_sorted_rankOf row s idx hlen h
+
+/-- two tie orders: the same multiset of (ranked value, output value) pairs — what the
+correspondence compares when the ranked array has ties -/
+theorem remap_tie_order_independent (row s : List Rat) (idx₁ idx₂ : List Nat)
+    (hlen : s.length = row.length) (h₁ : RankOf s idx₁) (h₂ : RankOf s idx₂) :
+    ∃ out₁ out₂, gather (sortR row) idx₁ = some out₁ ∧ gather (sortR row) idx₂ = some out₂ ∧
+      (s.zip out₁).Perm (s.zip out₂) :=
+  remap_tie_order_independent' row s idx₁ idx₂ hlen h₁ h₂
+
+/-- the model's own `s.argsort().argsort()` (stable merge sort, twice) is a rank array -/
+theorem model_ranks_are_a_rank_array (s : List Rat) : RankOf s (ranks s) := ranks_rankOf s
+
+/-- **model ↔ code under ties**: whatever rank array numpy returned, the output of the code and the
+output of the model `remap` have the same multiset of (ranked value, output value) pairs -/
+theorem remap_equals_model_up_to_tie_order (row s : List Rat) (idx : List Nat)
+    (hlen : s.length = row.length) (h : RankOf s idx) :
+    ∃ out out', gather (sortR row) idx = some out ∧ remap row s = some out' ∧
+      (s.zip out).Perm (s.zip out') :=
+  remap_tie_order_independent_model row s idx hlen h
+
+/-- … and without ties they are equal -/
+theorem remap_equals_model_without_ties (row s : List Rat) (idx : List Nat)
+    (hlen : s.length = row.length) (hs : s.Nodup) (h : RankOf s idx) :
+    gather (sortR row) idx = remap row s :=
+  remap_unique_of_nodup row s idx hlen hs h
+
+/-- both tie orders of `[1, 1, 0]` are rank arrays -/
+example : RankOf [1, 1, 0] [2, 1, 0] ∧ RankOf [1, 1, 0] [1, 2, 0] := by decide
+/-- … and ranking the larger value first is not -/
+example : ¬ RankOf [1, 1, 0] [0, 1, 2] := by decide
+
+/-- the amplitude adjustment is co-monotone with the ranked array, whatever the tie order -/
+theorem remap_comonotone (row s : List Rat) (idx : List Nat)
+    (h : RankOf s idx) (out : List Rat) (ho : gather (sortR row) idx = some out)
+    (a b : Nat) (x y u v : Rat) (hx : s[a]? = some x) (hy : s[b]? = some y)
+    (hu : out[a]? = some u) (hv : out[b]? = some v) (hxy : x < y) : u ≤ v :=
+  remap_comonotone' row s idx h out ho a b x y u v hx hy hu hv hxy
+
+/-- without ties in the ranked array the output does not depend on the rank array at all -/
+theorem remap_unique_without_ties (row s : List Rat) (idx₁ idx₂ : List Nat)
+    (hlen : s.length = row.length) (hs : s.Nodup) (h₁ : RankOf s idx₁) (h₂ : RankOf s idx₂) :
+    gather (sortR row) idx₁ = gather (sortR row) idx₂ :=
+  remap_unique_of_nodup' row s idx₁ idx₂ hlen hs h₁ h₂
+
+/-! ### `correlated_noise_surrogates`, statement by statement
+
+`Generated/StructC15.lean` (`translate/gen_C15.py`, every run) holds the body of the method as a list
+of `FStep`s; `fourierMethodCalls` executes it over a call history on one object (memoised FFT,
+aliasing of the local name with the memoised array). -/
+
+open Pyunicorn.Generated in
+set_option linter.unusedTactic false in
+set_option linter.unreachableTactic false in
+/-- the body found in the source is one the spectrum theorem covers: fetch the memoised FFT, draw
+one phase per `rfft` bin, multiply (into a copy or in place), hand the product to `irfft` — nothing
+else touches the spectrum (seed C15-5 inserted `S[:, 0] = S[:, 0].real; S[:, -1] = S[:, -1].real`). -/
+theorem fourier_method_body_covered : ∃ m, StructC15.fourierBody = expectedBody m := by
+  first
+    | exact ⟨.copy, rfl⟩
+    | exact ⟨.inplace, rfl⟩
+
+open Pyunicorn.Generated in
+/-- **Fourier surrogates keep the amplitude spectrum — for the method body as it stands in the
+source**: every call of every history on one object succeeds and its output has the amplitudes of
+the data at every `0 < f`, `2f < n` (for odd `n` that includes the last `rfft` bin). -/
+theorem fourier_method_keeps_amplitudes {n : ℕ} [NeZero n] (x : ZMod n → ℝ)
+    (phases : List (List ℝ)) (h : ∀ φs ∈ phases, φs.length = n / 2 + 1) :
+    ∃ outs, fourierMethodCalls realTrig StructC15.fourierBody (spectrum x) phases = some outs ∧
+      outs.length = phases.length ∧
+      ∀ out ∈ outs, ∀ f, 0 < f → 2 * f < n →
+        ‖DFT.rfft (DFT.irfft (n := n) (rowFn out)) f‖ = ‖DFT.rfft x f‖ := by
+  obtain ⟨m, hm⟩ := fourier_method_body_covered
+  rw [hm, fourierMethodCalls_expected realTrig m (spectrum x) phases
+    (fun φs hφ => by rw [spectrum_length]; exact h φs hφ)]
+  exact ⟨_, rfl, fourierCalls_length _ _ _ _, fourierCalls_surrogate_amplitudes x m phases h⟩
+
+/-- a wrong number of phases raises (numpy cannot broadcast), it does not truncate the spectrum -/
+theorem fourier_method_wrong_phase_count_raises (m : Mode) (cache : List (ℝ × ℝ)) (φs : List ℝ)
+    (h : φs.length ≠ cache.length) : fourierMethodCall realTrig (expectedBody m) cache φs = none :=
+  fourierMethodCall_bad_phases realTrig m cache φs h
+
+/-- **the last `rfft` bin of an odd length is an ordinary frequency**, not a Nyquist bin: the
+`irfft`/`rfft` round trip keeps its full complex value (so the statement's "non-Nyquist" excludes
+nothing for odd `n`, and `fourier_surrogates_keep_amplitudes` covers the bin `(n-1)/2`). -/
+theorem last_bin_of_odd_length_is_not_nyquist {n : ℕ} [NeZero n] (hodd : n % 2 = 1) (h3 : 3 ≤ n)
+    (Z : ℕ → ℂ) : DFT.rfft (DFT.irfft (n := n) Z) (n / 2) = Z (n / 2) :=
+  DFT.rfft_irfft Z (n / 2) (by omega) (by omega)
+
+/-- what seed C15-5 did: replacing the last bin by its real part before `irfft` changes the
+amplitude of that frequency to `|Re Z|` when `n` is odd (for even `n` it is what `irfft` does
+anyway, `rfft_irfft_dc_nyquist_real_part`) -/
+theorem forcing_last_bin_real_changes_amplitude {n : ℕ} [NeZero n] (hodd : n % 2 = 1) (h3 : 3 ≤ n)
+    (Z : ℕ → ℂ) :
+    ‖DFT.rfft (DFT.irfft (n := n) (Function.update Z (n / 2) (((Z (n / 2)).re : ℝ) : ℂ))) (n / 2)‖
+      = |(Z (n / 2)).re| := by
+  rw [DFT.rfft_irfft _ (n / 2) (by omega) (by omega), Function.update_self, Complex.norm_real,
+    Real.norm_eq_abs]
+
+example : ‖DFT.rfft (DFT.irfft (n := 3) (Function.update (fun _ => Complex.I) (3 / 2)
+    ((((fun _ : ℕ => Complex.I) (3 / 2)).re : ℝ) : ℂ))) (3 / 2)‖ = 0 := by
+  rw [forcing_last_bin_real_changes_amplitude (by decide) (by decide)]; simp
+
+/-! ### the Fourier surrogates of the pure-Python coupling class (`real(ifft(W))` of a full spectrum)
+
+`Model/SurrogatesCoupling.lean` (`cnsStep`, `cnsCalls`) follows `CouplingAnalysisPurePython.
+correlatedNoiseSurrogates` on the slices of the source; the DFT facts it rests on: -/
+
+/-- a Hermitian full spectrum survives `real(ifft(·))` followed by `fft` at **every** bin — why the
+mirrored negative frequencies must be the *frequency-reversed* conjugates (`numpy.fliplr`) -/
+theorem hermitian_spectrum_survives_real_ifft {n : ℕ} [NeZero n] (W : ZMod n → ℂ)
+    (hW : ∀ k, W (-k) = (starRingEnd ℂ) (W k)) :
+    ZMod.dft (fun t => ((realIfft W t : ℝ) : ℂ)) = W :=
+  dft_realIfft_of_hermitian W hW
+
+/-- without the symmetry the surrogate has the spectrum `(W(k) + conj W(-k)) / 2` — what the
+repaired `numpy.flipud` (node axis) version produced, amplitudes not kept -/
+theorem real_ifft_spectrum_general {n : ℕ} [NeZero n] (W : ZMod n → ℂ) (k : ZMod n) :
+    ZMod.dft (fun t => ((realIfft W t : ℝ) : ℂ)) k = (W k + (starRingEnd ℂ) (W (-k))) / 2 :=
+  dft_realIfft_general W k
+
+/-- one call on the memoised full FFT of a series of length 6 (multiplication by `i`): DC and
+Nyquist untouched, bins 1-2 rotated, bins 4-5 the reversed conjugates -/
+example : cnsStep (⟨fun _ => 0, fun _ => 1⟩ : Trig Int)
+    [(10, 0), (1, 2), (3, 4), (30, 0), (3, -4), (1, -2)] [7, 7]
+    = some [(10, 0), (-2, 1), (-4, 3), (30, 0), (-4, -3), (-2, -1)] := by decide +kernel
+
+/-- a wrong number of phases is a shape error -/
+example : cnsStep (⟨fun _ => 0, fun _ => 1⟩ : Trig Int)
+    [(10, 0), (1, 2), (3, 4), (3, -4), (1, -2)] [7] = none := by decide +kernel
+
+/-! ### `normalize_original_data` (exact arithmetic; `mean`, `std` as the method computes them are
+inputs: the theorems hold for whatever values they are given, the hypotheses say what they are) -/
+
+/-- the loop succeeds whenever `mean`, `std` have an entry per series and keeps the shape of the
+data — so the hypothesis `Op.Ok` of `twin_surrogates_every_history` holds for the array it leaves -/
+theorem normalize_keeps_shape (O : NormOps α) (ms ss : List α) (data : List (List α))
+    (hm : data.length ≤ ms.length) (hs : data.length ≤ ss.length) :
+    ∃ out, normalizeRows O ms ss data = some out ∧
+      List.Forall₂ (fun o r => o.length = r.length) out data :=
+  normalizeRows_shape O ms ss data hm hs
+
+theorem normalize_zero_mean (m s : ℝ) (row : List ℝ) (hm : row.length * m = row.sum) :
+    (normalizeRow realNormOps m s row).sum = 0 :=
+  normalizeRow_sum_zero m s row hm
+
+theorem normalize_unit_variance (m s : ℝ) (row : List ℝ) (hs : s ≠ 0)
+    (hv : ((row.map (· - m)).map fun y => y * y).sum = row.length * (s * s)) :
+    ((normalizeRow realNormOps m s row).map fun y => y * y).sum = row.length :=
+  normalizeRow_unit_variance m s row hs hv
+
+/-- a constant series has `std = 0`: it becomes the zero series, nothing is divided -/
+theorem normalize_constant_series (m : ℝ) (row : List ℝ) (hc : ∀ x ∈ row, x = m) :
+    normalizeRow realNormOps m 0 row = List.replicate row.length 0 :=
+  normalizeRow_constant m row hc
+
+/-- normalisation is strictly increasing sample by sample: order, ties and every rank array of a
+series survive it (so do the permutation clauses, which refer to the data held now) -/
+theorem normalize_strictly_increasing (m s : ℝ) (hs : 0 < s) (x y : ℝ) :
+    (x - m) / s < (y - m) / s ↔ x < y :=
+  normalize_strict_mono m s hs x y
+
+example : normalizeRow ratNormOps 2 (1 / 2) [1, 2, 3] = [-2, 0, 2] := by decide +kernel
 
 /-- a walk that jumps to the future of a twin (2 → 0+1), moves on, and restarts at the end -/
 example : walkRow 4 [[2], [], [0], []] (fun c m => [2, 0, 3, 1].getD c 0 % m) 0
